@@ -153,7 +153,8 @@ HTML_DOCS = [
 # documents where a U+FEFF follows a decoder piece boundary that the *decoder* creates (no user chunking needed)
 HTML_BOM_DOCS = [b"<p>a\xff\xef\xbb\xbfb", b"\xff\xef\xbb\xbf<p>", b"<p>\xef\xbb\xbf\xff\xef\xbb\xbf"]
 XML_DOCS = [b"<p>a\xffb</p>", b"<a b='\xe2\x82'>\xe2\x82\xac</a>", b"<!--\xf0\x9f--><r/>", b"<r>\xc3</r>", b"<\xc3\xa9/>",
-            b"<?pi \xff?><r>\xed\xa0\x80</r>", b"<r><![CDATA[\xe2\x82]]></r>"]
+            b"<?pi \xff?><r>\xed\xa0\x80</r>", b"<r><![CDATA[\xe2\x82]]></r>",
+            b"<a><script>x</script>y\xc3\xa9<b/>z</a>", b"<r><script/>\xe2\x82\xac<script>s</script>u</r>"]
 
 
 def gen_cases(tier, rng):
